@@ -94,4 +94,33 @@ theorem go_compute_src_distribution (capO : Nat → Int) (n fuel : Nat) (sqrtO :
 
 end field
 
+/-! ### the hypotheses are satisfiable (the theorems above are not vacuous) -/
+
+theorem nonFinite_rat (x : Rat) : nonFinite x = false := by
+  unfold nonFinite
+  simp only [Scalar.le, Scalar.eq, Scalar.add, Scalar.isZero, Scalar.zero]
+  by_cases h : x = 0
+  · subst h; simp
+  · have : ¬ (x + x = x) := by
+      intro hh
+      apply h
+      have := congrArg (fun y => y - x) hh
+      simpa using this
+    simp [this]
+
+/-- on the exact instance an (artificial) oracle meets `OracleOK` at every epsilon. -/
+example (e : Rat) :
+    OracleOK (α := Rat) (fun x => if x ≤ e * e then e else e + 1) (fun _ => false) (fun _ => false) e where
+  nf := fun es => by simp [nonFinite_rat]
+  sq := fun es => by
+    simp only [Scalar.le, Scalar.sqrtLe]
+    by_cases h : sqSum es ≤ e * e
+    · simp [h]
+    · simp [h]
+
+/-- on floats the comparison half holds by definition for the real square root; the finiteness half says that a
+    compensated sum of squares is never a negative number, which Lean's opaque `Float` cannot prove and the bit tier
+    of the correspondence run checks on every compute case. -/
+example (e x : Float) : Scalar.le (Float.sqrt x) e = Scalar.sqrtLe x e := rfl
+
 end EtVerif.TrSrc
